@@ -325,7 +325,7 @@ def same_path_check(p, name, c1, c2):
 
 def family_unit(p, item, tier, seed):
     rnd = random.Random(item)
-    fam = [(n, c) for n, c in circgen.feature_circuits() if expressible(c)] if item % 8 == 0 else []
+    fam = [(n, c) for n, c in circgen.feature_circuits() + circgen.large_circuits(item) if expressible(c)] if item % 8 == 0 else []
     for i in range(25 if tier == "quick" else 60):
         c = circgen.random_circuit(rnd, rnd.randint(1, 4), rnd.randint(1, 8), max_arity=3, n_outputs=rnd.randint(1, 3), shuffle_storage=bool(i % 2))
         fam.append((f"seeded[{item}:{i}]", c))
